@@ -42,11 +42,13 @@ type spec struct {
 	Family string // "seq" (one case after another), "second-use", "concurrent"
 	Base   int    // index whose PRNG fork generates the plan (second-use: the group's first index)
 	Rekey  bool   // second-use: every key replaced by a fresh v7 key
+	Pre    []int  // resubmit: mutation kinds applied (each followed by a Submit) to the very object that is then
+	// corrected in place and submitted again; len(c16lib.Kinds) = "the same action twice in a sequence"
 }
 
 // index space: [0,nSeq) sequential cases, [nSeq,nSeq+nSecond) the second-use family (groups of 20 on the
 // same Workstream, run by the sequential child right after the sequential cases), then nConc concurrent cases.
-var nSeq, nSecond, nConc, nLarge int
+var nSeq, nSecond, nConc, nLarge, nResub int
 
 // mutations that make a plan malformed (second-use family: every other Submit must be a rejection)
 var invalidating = []string{"key-dup-cross-level", "key-dup-same-kind", "name-empty", "timeout-1ns", "nil-element-insert",
@@ -90,6 +92,18 @@ func specOf(i int) spec {
 				// a rejection that comes after keys have already gone into the key set
 				s.Kinds = []int{kindIndex([]string{"key-dup-cross-level", "key-dup-same-kind", "key-dup-with-checks"}[j%3])}
 			}
+		}
+		return s
+	}
+	if i >= nSeq+nSecond+nConc {
+		// reject, correct in place, resubmit: the case is the LAST Submit, of the corrected (= valid) plan
+		j := i - (nSeq + nSecond + nConc)
+		nk := len(c16lib.Kinds) + 1
+		s.Family = "resubmit"
+		s.Opts = plangen.Opts{GroupP: 0.5, MaxBlocks: 2, MaxSeqs: 2, MaxActions: 3, KeyP: 0.6, AltP: 0.2}
+		s.Pre = []int{j % nk}
+		if (j/nk)%2 == 1 { // rejected twice, for two different reasons, before it is corrected
+			s.Pre = append(s.Pre, rk.Intn(nk))
 		}
 		return s
 	}
@@ -139,6 +153,8 @@ type built struct {
 	regset bool
 	nonce  string
 	name   string // plan name as generated (before mutations)
+	gen    *plangen.Gen
+	r      *core.Rand
 }
 
 // build generates the plan of a spec; every call with the same spec yields an equal, unshared plan.
@@ -165,7 +181,108 @@ func build(s spec, set *c16lib.Set, forSubmit bool) built {
 	if m.NilPlan {
 		return built{plan: nil, did: did, nonce: g.Nonce, name: name}
 	}
-	return built{plan: p, did: did, regset: m.RegSet, nonce: g.Nonce, name: name}
+	return built{plan: p, did: did, regset: m.RegSet, nonce: g.Nonce, name: name, gen: g, r: r}
+}
+
+// ---- reject, correct in place, resubmit
+
+// snapshot remembers the exported fields of every object of a plan (slices cloned), so that the very same
+// objects can later be put back the way they were - as a caller correcting a rejected plan would do.
+// The unexported register of an action is deliberately not touched.
+type snapshot struct {
+	plan   workflow.Plan
+	checks map[*workflow.Checks]workflow.Checks
+	blocks map[*workflow.Block]workflow.Block
+	seqs   map[*workflow.Sequence]workflow.Sequence
+	acts   map[*workflow.Action]workflow.Action
+}
+
+func clonePtrs[T any](s []*T) []*T {
+	if s == nil {
+		return nil
+	}
+	return append([]*T{}, s...)
+}
+
+func takeSnapshot(p *workflow.Plan) *snapshot {
+	sn := &snapshot{plan: *p, checks: map[*workflow.Checks]workflow.Checks{}, blocks: map[*workflow.Block]workflow.Block{},
+		seqs: map[*workflow.Sequence]workflow.Sequence{}, acts: map[*workflow.Action]workflow.Action{}}
+	sn.plan.Blocks = clonePtrs(p.Blocks)
+	for _, ob := range c16lib.Objects(p) {
+		switch ob.Kind {
+		case c16lib.KChecks:
+			c := *ob.C
+			c.Actions = clonePtrs(c.Actions)
+			sn.checks[ob.C] = c
+		case c16lib.KBlock:
+			b := *ob.B
+			b.Sequences = clonePtrs(b.Sequences)
+			sn.blocks[ob.B] = b
+		case c16lib.KSeq:
+			q := *ob.S
+			q.Actions = clonePtrs(q.Actions)
+			sn.seqs[ob.S] = q
+		case c16lib.KAction:
+			sn.acts[ob.A] = *ob.A
+		}
+	}
+	return sn
+}
+
+// restore writes the remembered exported fields back into the same objects.
+func (sn *snapshot) restore(p *workflow.Plan) {
+	s := sn.plan
+	p.ID, p.Name, p.Descr, p.GroupID, p.Meta = s.ID, s.Name, s.Descr, s.GroupID, s.Meta
+	p.BypassChecks, p.PreChecks, p.ContChecks, p.PostChecks, p.DeferredChecks = s.BypassChecks, s.PreChecks, s.ContChecks, s.PostChecks, s.DeferredChecks
+	p.Blocks, p.State, p.SubmitTime, p.Reason = clonePtrs(s.Blocks), s.State, s.SubmitTime, s.Reason
+	for c, v := range sn.checks {
+		c.ID, c.Key, c.Delay, c.Actions, c.State = v.ID, v.Key, v.Delay, clonePtrs(v.Actions), v.State
+	}
+	for b, v := range sn.blocks {
+		b.ID, b.Key, b.Name, b.Descr, b.EntranceDelay, b.ExitDelay = v.ID, v.Key, v.Name, v.Descr, v.EntranceDelay, v.ExitDelay
+		b.BypassChecks, b.PreChecks, b.ContChecks, b.PostChecks, b.DeferredChecks = v.BypassChecks, v.PreChecks, v.ContChecks, v.PostChecks, v.DeferredChecks
+		b.Sequences, b.Concurrency, b.ToleratedFailures, b.State = clonePtrs(v.Sequences), v.Concurrency, v.ToleratedFailures, v.State
+	}
+	for q, v := range sn.seqs {
+		q.ID, q.Key, q.Name, q.Descr, q.Actions, q.State = v.ID, v.Key, v.Name, v.Descr, clonePtrs(v.Actions), v.State
+	}
+	for a, v := range sn.acts {
+		a.ID, a.Key, a.Name, a.Descr, a.Plugin, a.Timeout, a.Retries, a.Req, a.Attempts, a.State =
+			v.ID, v.Key, v.Name, v.Descr, v.Plugin, v.Timeout, v.Retries, v.Req, v.Attempts, v.State
+	}
+}
+
+// preRounds mutates the (valid) plan of b, submits it, and so on for every kind of pre; then corrects the plan
+// in place. It returns the verdict of each of those Submits (0 rejected, 1 accepted, 2 panic) and what was applied.
+func (w *worker) preRounds(b built, pre []int) (verdicts []int, applied []string) {
+	ctx := context.Background()
+	sn := takeSnapshot(b.plan)
+	m := &c16lib.M{R: b.r, G: b.gen, P: b.plan, Reg: w.set.Reg, ForSubmit: true}
+	for _, k := range pre {
+		name := "same-action-twice-in-a-sequence"
+		ok := false
+		if k < len(c16lib.Kinds) {
+			name = c16lib.Kinds[k].Name
+			if name != "nil-plan" && name != "register-preset" {
+				ok = c16lib.Kinds[k].Apply(m)
+			}
+		} else if ob, found := pickObj(b.r, b.plan, func(o c16lib.Obj) bool { return o.Kind == c16lib.KSeq && len(o.S.Actions) > 0 && o.S.Actions[0] != nil }); found {
+			ob.S.Actions = append(ob.S.Actions, ob.S.Actions[0])
+			ok = true
+		}
+		if !ok {
+			continue
+		}
+		applied = append(applied, name)
+		var err error
+		if pn := guard(func() { _, err = w.ws.Submit(ctx, b.plan) }); pn != "" {
+			verdicts = append(verdicts, 2)
+		} else {
+			verdicts = append(verdicts, code(err))
+		}
+	}
+	sn.restore(b.plan)
+	return verdicts, applied
 }
 
 func planTerm(cx *plancoq.Ctx, p *workflow.Plan) string {
@@ -178,18 +295,20 @@ func planTerm(cx *plancoq.Ctx, p *workflow.Plan) string {
 // ---------------------------------------------------------------- observation (child)
 
 type obs struct {
-	Validate int      `json:"validate"` // 0 error, 1 nil, 2 panic, 3 not run
-	Submit   int      `json:"submit"`
-	Delta    [5]int   `json:"delta"`
-	Shrunk   bool     `json:"shrunk"`
-	Stored   bool     `json:"stored"`
-	Flags    [3]bool  `json:"flags"` // returned id = stored id; ids new; submit time in window
-	Start    int      `json:"start"`
-	Fresh    bool     `json:"fresh"`
-	Tamper   string   `json:"tamper,omitempty"`
-	Errs     []string `json:"errs,omitempty"` // error texts, for humans only
-	Panic    string   `json:"panic,omitempty"`
-	Taint    bool     `json:"taint,omitempty"`
+	Validate   int      `json:"validate"` // 0 error, 1 nil, 2 panic, 3 not run
+	Submit     int      `json:"submit"`
+	Delta      [5]int   `json:"delta"`
+	Shrunk     bool     `json:"shrunk"`
+	Stored     bool     `json:"stored"`
+	Flags      [3]bool  `json:"flags"` // returned id = stored id; ids new; submit time in window
+	Start      int      `json:"start"`
+	Fresh      bool     `json:"fresh"`
+	Tamper     string   `json:"tamper,omitempty"`
+	Pre        []int    `json:"pre_verdicts,omitempty"` // resubmit: verdicts of the Submits before the correction
+	PreApplied []string `json:"pre_applied,omitempty"`
+	Errs       []string `json:"errs,omitempty"` // error texts, for humans only
+	Panic      string   `json:"panic,omitempty"`
+	Taint      bool     `json:"taint,omitempty"`
 }
 
 type line struct {
@@ -306,15 +425,27 @@ func mkCase(g generated, o obs, storedTerm, startTerm string) core.Case {
 		Nontrivial: len(did) > 0 || g.objects > 3,
 		Hash:       core.Hash(g.termS, g.termV, startTerm, fmt.Sprint(o.Validate, o.Submit, o.Delta, o.Stored, o.Start)),
 		Dist: map[string]any{"mutations": did, "requested": len(g.spec.Kinds), "objects": g.objects,
-			"validate": o.Validate, "submit": o.Submit, "start": o.Start, "tamper": g.spec.Tamper, "family": g.spec.Family},
+			"validate": o.Validate, "submit": o.Submit, "start": o.Start, "tamper": g.spec.Tamper, "family": g.spec.Family, "pre": o.PreApplied, "pre_verdicts": o.Pre},
 		Input: map[string]any{"seed": core.Seed(), "index": g.spec.Index, "opts": g.spec.Opts, "kinds": kindNames(g.spec.Kinds), "applied": did,
-			"family": g.spec.Family, "base": g.spec.Base, "rekey": g.spec.Rekey, "nseq": nSeq, "nsecond": nSecond, "nconc": nConc},
+			"family": g.spec.Family, "base": g.spec.Base, "rekey": g.spec.Rekey, "nseq": nSeq, "nsecond": nSecond, "nconc": nConc, "nresub": nResub, "pre": kindNamesX(g.spec.Pre)},
 		Observed: o,
 	}
 	if o.Panic != "" {
 		c.Note = "panic: " + o.Panic
 	}
 	return c
+}
+
+func kindNamesX(ks []int) []string {
+	out := []string{}
+	for _, k := range ks {
+		if k < len(c16lib.Kinds) {
+			out = append(out, c16lib.Kinds[k].Name)
+		} else {
+			out = append(out, "same-action-twice-in-a-sequence")
+		}
+	}
+	return out
 }
 
 func kindNames(ks []int) []string {
@@ -501,6 +632,23 @@ func (w *worker) run(i int, startEvery int) line {
 	// (2) Workstream.Submit on another twin, with the store's row counts around it
 	bS := build(g.spec, w.set, true)
 	before := w.rows()
+	if g.spec.Family == "resubmit" {
+		// the same object is first submitted in malformed states (each must be rejected and leave nothing),
+		// then corrected in place; the case proper is the Submit of the corrected plan
+		o.Pre, o.PreApplied = w.preRounds(bS, g.spec.Pre)
+		rejected := len(o.Pre) > 0
+		for _, v := range o.Pre {
+			if v == 2 {
+				o.Taint = true
+			}
+			if v != 0 {
+				rejected = false
+			}
+		}
+		if !rejected { // the mutation did not apply or did not make the plan malformed: nothing to resubmit
+			return line{Idx: i, Case: mkCase(g, o, storedTerm, startTerm), Obs: o}
+		}
+	}
 	var id uuid.UUID
 	t0 := time.Now()
 	if p := guard(func() { id, err = w.ws.Submit(ctx, bS.plan) }); p != "" {
@@ -825,21 +973,21 @@ func largePlan(tag string, nb, ns, na int) *workflow.Plan {
 }
 
 type largeObs struct {
-	Tag       string   `json:"tag"`
-	Shape     [3]int   `json:"shape"`
-	Objects   int      `json:"objects"`
-	During    string   `json:"during"` // what else was going on in the process
-	SubmitOK  bool     `json:"submit_ok"`
-	Panic     string   `json:"panic,omitempty"`
-	Err       string   `json:"err,omitempty"`
-	Dup       int      `json:"duplicate_ids"`   // ids of the submitted tree equal to an earlier id of the same tree
-	Nil       int      `json:"nil_ids"`
-	NotV7     int      `json:"non_v7_ids"`
-	SeenBefore int     `json:"ids_seen_before"` // ids some other plan of this process already had
-	Readable  bool     `json:"readable"`
-	ReadSame  bool     `json:"read_back_same_ids"`
-	Millis    int64    `json:"submit_ms"`
-	Problems  []string `json:"problems"`
+	Tag        string   `json:"tag"`
+	Shape      [3]int   `json:"shape"`
+	Objects    int      `json:"objects"`
+	During     string   `json:"during"` // what else was going on in the process
+	SubmitOK   bool     `json:"submit_ok"`
+	Panic      string   `json:"panic,omitempty"`
+	Err        string   `json:"err,omitempty"`
+	Dup        int      `json:"duplicate_ids"` // ids of the submitted tree equal to an earlier id of the same tree
+	Nil        int      `json:"nil_ids"`
+	NotV7      int      `json:"non_v7_ids"`
+	SeenBefore int      `json:"ids_seen_before"` // ids some other plan of this process already had
+	Readable   bool     `json:"readable"`
+	ReadSame   bool     `json:"read_back_same_ids"`
+	Millis     int64    `json:"submit_ms"`
+	Problems   []string `json:"problems"`
 }
 
 // submitLarge submits one large valid plan through the real Submit of ws and judges the ids it was given.
@@ -937,7 +1085,7 @@ func (w *worker) submitLarge(ws *coercion.Workstream, tag, during string, nb, ns
 // runConc runs the concurrent batch in a child and returns its lines (and what went wrong, if anything).
 func runConc(self, dir string, from, to, par int) (map[int]line, []line, string) {
 	cmd := exec.Command(self, "-concworker", "-from", fmt.Sprint(from), "-to", fmt.Sprint(to), "-par", fmt.Sprint(par), "-db", dir,
-		"-n", fmt.Sprint(nSeq), "-second", fmt.Sprint(nSecond), "-conc", fmt.Sprint(nConc), "-large", fmt.Sprint(nLarge))
+		"-n", fmt.Sprint(nSeq), "-second", fmt.Sprint(nSecond), "-conc", fmt.Sprint(nConc), "-large", fmt.Sprint(nLarge), "-resub", fmt.Sprint(nResub))
 	cmd.Env = os.Environ()
 	var stderr, stdout strings.Builder
 	cmd.Stderr, cmd.Stdout = &stderr, &stdout
@@ -989,6 +1137,7 @@ func main() {
 	conc := flag.Int("conc", 400, "number of cases submitted concurrently on one Workstream")
 	par := flag.Int("par", 8, "goroutines of the concurrent batch")
 	large := flag.Int("large", 2, "size factor of the large-plan family run with the concurrent batch (0 = none; 2 = 20 000, 6 700 and 6 000 objects)")
+	resub := flag.Int("resub", 114, "number of reject-correct-resubmit cases")
 	isConc := flag.Bool("concworker", false, "run the concurrent batch in this process (child mode)")
 	outp := flag.String("out", "-", "output file (JSONL)")
 	isWorker := flag.Bool("worker", false, "run cases in this process (child mode)")
@@ -998,7 +1147,7 @@ func main() {
 	startEvery := flag.Int("start-every", 3, "call Start on every k-th accepted plan (0 = only where a refusal is expected)")
 	only := flag.Int("only", -1, "run just this case index")
 	flag.Parse()
-	nSeq, nSecond, nConc, nLarge = *n, *second, *conc, *large
+	nSeq, nSecond, nConc, nLarge, nResub = *n, *second, *conc, *large, *resub
 
 	if *isConc {
 		concWorkerMain(*from, *to, *par, *dir)
@@ -1037,82 +1186,94 @@ func main() {
 			lo = *only - (*only-nSeq)%20 // a second-use case is replayed with its group
 		}
 	}
-	next, children := lo, 0
-	for next < hi {
-		children++
-		cmd := exec.Command(self, "-worker", "-from", fmt.Sprint(next), "-to", fmt.Sprint(hi),
-			"-db", filepath.Join(base, fmt.Sprintf("w%d", children)), "-start-every", fmt.Sprint(*startEvery),
-			"-n", fmt.Sprint(nSeq), "-second", fmt.Sprint(nSecond), "-conc", fmt.Sprint(nConc))
-		cmd.Env = os.Environ()
-		var stderr strings.Builder
-		cmd.Stderr = &stderr
-		pipe, err := cmd.StdoutPipe()
-		if err != nil {
-			fmt.Fprintln(os.Stderr, err)
-			os.Exit(2)
-		}
-		if err := cmd.Start(); err != nil {
-			fmt.Fprintln(os.Stderr, err)
-			os.Exit(2)
-		}
-		lines := make(chan line)
-		go func() {
-			sc := bufio.NewScanner(pipe)
-			sc.Buffer(make([]byte, 1<<20), 1<<28)
-			for sc.Scan() {
-				var l line
-				if json.Unmarshal(sc.Bytes(), &l) == nil {
-					lines <- l
-				}
+	children := 0
+	seqRange := func(lo, hi int) {
+		next := lo
+		for next < hi {
+			children++
+			cmd := exec.Command(self, "-worker", "-from", fmt.Sprint(next), "-to", fmt.Sprint(hi),
+				"-db", filepath.Join(base, fmt.Sprintf("w%d", children)), "-start-every", fmt.Sprint(*startEvery),
+				"-n", fmt.Sprint(nSeq), "-second", fmt.Sprint(nSecond), "-conc", fmt.Sprint(nConc), "-resub", fmt.Sprint(nResub))
+			cmd.Env = os.Environ()
+			var stderr strings.Builder
+			cmd.Stderr = &stderr
+			pipe, err := cmd.StdoutPipe()
+			if err != nil {
+				fmt.Fprintln(os.Stderr, err)
+				os.Exit(2)
 			}
-			close(lines)
-		}()
-		hung := false
-	read:
-		for {
-			select {
-			case l, ok := <-lines:
-				if !ok {
+			if err := cmd.Start(); err != nil {
+				fmt.Fprintln(os.Stderr, err)
+				os.Exit(2)
+			}
+			lines := make(chan line)
+			go func() {
+				sc := bufio.NewScanner(pipe)
+				sc.Buffer(make([]byte, 1<<20), 1<<28)
+				for sc.Scan() {
+					var l line
+					if json.Unmarshal(sc.Bytes(), &l) == nil {
+						lines <- l
+					}
+				}
+				close(lines)
+			}()
+			hung := false
+		read:
+			for {
+				select {
+				case l, ok := <-lines:
+					if !ok {
+						break read
+					}
+					if l.Idx == next {
+						if *only < 0 || l.Idx == *only {
+							w.Put(l.Case)
+						}
+						next++
+					}
+				case <-time.After(90 * time.Second):
+					hung = true
+					cmd.Process.Kill()
 					break read
 				}
-				if l.Idx == next {
-					if *only < 0 || l.Idx == *only {
-						w.Put(l.Case)
-					}
-					next++
+			}
+			for range lines {
+			}
+			werr := cmd.Wait()
+			code := cmd.ProcessState.ExitCode()
+			if next < hi && (hung || (code != 0 && code != 3)) {
+				// the child died or hung inside case `next` without reporting it: that is the observation
+				g := generate(next, set)
+				what := fmt.Sprintf("child process exited with %v (code %d) while running this case", werr, code)
+				if hung {
+					what = "child process produced nothing for 90 s while running this case (hang)"
 				}
-			case <-time.After(90 * time.Second):
-				hung = true
-				cmd.Process.Kill()
-				break read
+				tail := stderr.String()
+				if len(tail) > 3000 {
+					tail = tail[len(tail)-3000:]
+				}
+				o := obs{Validate: 4, Submit: 3, Start: 3, Fresh: true, Panic: what + "\n" + tail, Taint: true}
+				if *only < 0 || next == *only {
+					w.Put(mkCase(g, o, "None", "None"))
+				}
+				next++
 			}
 		}
-		for range lines {
-		}
-		werr := cmd.Wait()
-		code := cmd.ProcessState.ExitCode()
-		if next < hi && (hung || (code != 0 && code != 3)) {
-			// the child died or hung inside case `next` without reporting it: that is the observation
-			g := generate(next, set)
-			what := fmt.Sprintf("child process exited with %v (code %d) while running this case", werr, code)
-			if hung {
-				what = "child process produced nothing for 90 s while running this case (hang)"
-			}
-			tail := stderr.String()
-			if len(tail) > 3000 {
-				tail = tail[len(tail)-3000:]
-			}
-			o := obs{Validate: 4, Submit: 3, Start: 3, Fresh: true, Panic: what + "\n" + tail, Taint: true}
-			if *only < 0 || next == *only {
-				w.Put(mkCase(g, o, "None", "None"))
-			}
-			next++
-		}
+	}
+	seqRange(lo, hi)
+
+	// the reject-correct-resubmit family, one case after another in a child of its own
+	rfrom, rto := nSeq+nSecond+nConc, nSeq+nSecond+nConc+nResub
+	if *only < 0 {
+		seqRange(rfrom, rto)
+	} else if *only >= rfrom {
+		seqRange(*only, *only+1)
 	}
 
 	// the concurrent batch, in a child of its own (fresh Workstream, fresh vault)
 	cfrom, cto := nSeq+nSecond, nSeq+nSecond+nConc
-	if nConc > 0 && (*only < 0 || *only >= cfrom) {
+	if nConc > 0 && (*only < 0 || (*only >= cfrom && *only < cto)) {
 		got, extra, problem := runConc(self, filepath.Join(base, "conc"), cfrom, cto, *par)
 		missing := 0
 		for i := cfrom; i < cto; i++ {
